@@ -264,10 +264,10 @@ def exT : List (Step Scalar) :=
    .star, .item (.slice none (some (.lit (.int 2))) none)]
 
 example : validT exT = true := by
-  simp [exT, validT, validStep, validItem, validArg, Step.isSeg, Arg.isSliceObj, Arg.isTuple, Item.isAtom]
+  simp [exT, validT, validStep, validItem, validArg, Step.isSeg, Arg.isSliceObj, Item.isAtom]
 
 example : validObj (.tobj "S" exT) = true := by
-  simp [exT, validObj, validT, validStep, validItem, validArg, Step.isSeg, Arg.isSliceObj, Arg.isTuple, Item.isAtom]
+  simp [exT, validObj, validT, validStep, validItem, validArg, Step.isSeg, Arg.isSliceObj, Item.isAtom]
 
 /-- `T(10**40, [(), (1,), {'k': {2, 3}}, frozenset(), b'x'], slice(1, None, 2))['q' * 31]`:
     every literal kind of the grammar, past reprlib's default limits, inside the instance's -/
@@ -301,7 +301,8 @@ example : validT [.call [.path "T" exP] []] = true := by
 
 /-- the scalars fit: ints of 41 digits, a 31-character string (both past reprlib's defaults) -/
 example : fitsObj pyScalar F1 (Limits.uniform minLimit) (.tobj "T" exP) = true := by
-  simp [exP, fitsObj, fitsSteps, fitsStep, fitsArg, fitsLit, pyScalar, Obj.steps]
+  simp [exP, fitsObj, fitsSteps, fitsStep, fitsArg, fitsLit, pyScalar, Obj.steps, nameFits, isDunder, dunder,
+    Limits.uniform, minLimit]
 
 /-- the hypotheses of `c18_concat` are those of C01 -/
 example : C01.WF (C01.genEnv []) = true ∧
